@@ -46,7 +46,8 @@ def Val.key (x : Val) : Key :=
 def veq (x y : Val) : Bool := x.key == y.key
 
 /-- `check_type(value, base)` for a base type that is not an aggregate, as a relation between the value's type and the base:
-* an ordinary simple type, BOOLEAN, LOGICAL or an ENUMERATION (tags 0–4, 6, 7): the value's own class (`isinstance`);
+* an ordinary simple type, BOOLEAN, LOGICAL, an ENUMERATION or BINARY (tags 0–4, 6, 7, 8): the value's own class
+  (`isinstance`; no class of these is a subclass of another — regenerated `simpleSubclassPairs`, tied in Props/C19.lean);
 * NUMBER (tag 5, a base type only: it has no values of its own): a base class of INTEGER and REAL (not of `bool`);
 * a SELECT (tag `100 + m`, `m` the bit mask of its member tags; a base type only): the value is an instance of one of the
   member types (`SELECT.get_allowed_basic_types`). -/
